@@ -246,7 +246,45 @@ def gen_wopn(out):
     return {"wopn_magics": 4, "wopn_latest_version": latest, "WOPN_INST_SIZE_V1": v1, "WOPN_INST_SIZE_V2": v2, "wopn_error_codes": len(names)}
 
 
-GENERATORS = [gen_tables, gen_wopn]
+def dec_exact(lit):
+    return fractions.Fraction(lit)
+
+
+def gen_pitch(out):
+    opn2 = src("src/opnmidi_opn2.cpp")
+    fam = src("src/chips/opn_chip_family.h")
+    c = find("pitch_c", opn2, r"return std::exp\(([0-9.]+) \* tone\);").group(1)
+    coef2 = find("pitch_coef_opn2", opn2, r"case OPNChip_OPN2: default:\s*coef = ([0-9.]+); break;").group(1)
+    coefa = find("pitch_coef_opna", opn2, r"case OPNChip_OPNA:\s*coef = ([0-9.]+); break;").group(1)
+    m = find("pitch_loop1", opn2, r"while\(\(hertz >= ([0-9.]+)\) && \(octave < (0x[0-9a-fA-F]+)\)\)\s*\{\s*hertz /= 2\.0;[^\n]*\n\s*octave \+= (0x[0-9a-fA-F]+);")
+    t1, octmax, octstep = m.group(1), int(m.group(2), 16), int(m.group(3), 16)
+    t2 = find("pitch_loop2", opn2, r"while\(hertz >= ([0-9.]+)\)\s*\{\s*hertz /= 2\.0;[^\n]*\n\s*mul_offset\+\+;").group(1)
+    lim = find("pitch_limit", opn2, r"if\(hertz < 0 \|\| hertz > ([0-9.]+)\)").group(1)
+    find("pitch_round", opn2, r"ftone = octave \+ static_cast<uint32_t>\(hertz \+ 0\.5\);")
+    find("pitch_mul_overflow", opn2, r"if\(\(mul \+ mul_offset\) > 0x0F\)\s*\{\s*mul_offset = 0;\s*mul = 0x0F;")
+    clk2 = int(find("clock_opn2", fam, r"OPNFamilyTraits<OPNChip_OPN2>.*?nativeRate = (\d+),\s*nativeClockRate = (\d+)").group(2))
+    rate2 = int(find("rate_opn2", fam, r"OPNFamilyTraits<OPNChip_OPN2>.*?nativeRate = (\d+),").group(1))
+    clka = int(find("clock_opna", fam, r"OPNFamilyTraits<OPNChip_OPNA>.*?nativeRate = (\d+),\s*nativeClockRate = (\d+)").group(2))
+    ratea = int(find("rate_opna", fam, r"OPNFamilyTraits<OPNChip_OPNA>.*?nativeRate = (\d+),").group(1))
+    mp = src("src/opnmidi_midiplay.hpp")
+    find("bend_unit", mp, r"bendsense = cent \* \(1\.0 / \(128 \* 8192\)\);")
+    L = ["-- GENERATED by tools/translate.py from /repo (do not edit)", "namespace Opn.Gen",
+         "/-- exact value of the double nearest to the literal, and the literal as a decimal -/",
+         "def pitchC : Rat := %s" % rat_lean(double_exact(c)), "def pitchCDec : Rat := %s" % rat_lean(dec_exact(c)),
+         "def coefOPN2 : Rat := %s" % rat_lean(double_exact(coef2)), "def coefOPN2Dec : Rat := %s" % rat_lean(dec_exact(coef2)),
+         "def coefOPNA : Rat := %s" % rat_lean(double_exact(coefa)), "def coefOPNADec : Rat := %s" % rat_lean(dec_exact(coefa)),
+         "def pitchT1 : Rat := %s" % rat_lean(double_exact(t1)), "def pitchT2 : Rat := %s" % rat_lean(double_exact(t2)),
+         "def pitchOctMax : Nat := %d" % octmax, "def pitchOctStep : Nat := %d" % octstep,
+         "def pitchHertzLimit : Rat := %s" % rat_lean(double_exact(lim)),
+         "def clockOPN2 : Nat := %d" % clk2, "def clockOPNA : Nat := %d" % clka,
+         "def nativeRateOPN2 : Nat := %d" % rate2, "def nativeRateOPNA : Nat := %d" % ratea,
+         "end Opn.Gen"]
+    out["Pitch.lean"] = "\n".join(L) + "\n"
+    return {"pitch_c": c, "pitch_coef_opn2": coef2, "pitch_coef_opna": coefa, "pitch_t1": t1, "pitch_t2": t2, "pitch_limit": lim,
+            "clock_opn2": clk2, "clock_opna": clka}
+
+
+GENERATORS = [gen_tables, gen_wopn, gen_pitch]
 
 
 def translate(write=True):
